@@ -159,6 +159,7 @@ pub fn cases(tier: Tier) -> Vec<FaultCase> {
 		file_hooks: false,
 		retry_after: None,
 		processing: false,
+		mixed_hooks: false,
 	};
 	let full_k_positions = [Pos::NewOrder, Pos::Chall(1), Pos::Finalize];
 	for pos in post_positions() {
@@ -178,8 +179,9 @@ pub fn cases(tier: Tier) -> Vec<FaultCase> {
 		for a in [Action::AcmeNoType, Action::AcmeUnknownType, Action::NonJson(400), Action::NonJson(404), Action::NonJson(500), Action::NonJson(503), Action::Empty(403), Action::Empty(500)] {
 			out.push(mk(&pos, a, 1));
 		}
-		// status codes that are neither 2xx nor 4xx/5xx: a redirection without Location (not followed), 304, and codes above 599
-		for a in [Action::NonJson(300), Action::NonJson(301), Action::Empty(304), Action::NonJson(600), Action::Empty(999)] {
+		// status codes that are neither 2xx nor 4xx/5xx and that the HTTP library does not follow (redirections proper are out of
+		// the property's scope): 304 and codes above 599
+		for a in [Action::Empty(304), Action::NonJson(304), Action::NonJson(600), Action::Empty(999)] {
 			out.push(mk(&pos, a, 1));
 		}
 	}
@@ -229,15 +231,177 @@ pub fn cases(tier: Tier) -> Vec<FaultCase> {
 	out
 }
 
+// ------------------------------------------------ the account requests of a later daemon life (contact update, key roll-over)
+#[derive(Clone, Debug, serde::Serialize, serde::Deserialize)]
+pub struct AcctCase {
+	/// account-update | key-change
+	pub pos: String,
+	pub action: Action,
+	pub k: usize,
+}
+
+pub fn acct_cases(tier: Tier) -> Vec<AcctCase> {
+	let mut out = vec![];
+	for pos in ["account-update", "key-change"] {
+		for t in RECOVERABLE {
+			let ks: Vec<usize> = if tier == Tier::Thorough { (1..=12).collect() } else { vec![1, 9, 10, 12] };
+			for k in ks {
+				out.push(AcctCase { pos: pos.into(), action: Action::Acme(t.to_string()), k });
+			}
+		}
+		for t in ACME_ERROR_TYPES.iter().filter(|t| !RECOVERABLE.contains(t) && **t != "accountDoesNotExist") {
+			if tier == Tier::Thorough || ["unauthorized", "badPublicKey", "userActionRequired", "externalAccountRequired", "invalidContact", "unsupportedContact"].contains(t) {
+				out.push(AcctCase { pos: pos.into(), action: Action::Acme(t.to_string()), k: 1 });
+			}
+		}
+		for a in [Action::NonJson(500), Action::Empty(403), Action::AcmeNoType, Action::Empty(304), Action::NonJson(600)] {
+			out.push(AcctCase { pos: pos.into(), action: a, k: 1 });
+		}
+	}
+	out
+}
+
+fn exec_acct(case: &AcctCase) -> Outcome {
+	use crate::bb::{self, Layout};
+	use crate::daemon::{Daemon, HookCollector, ProcState};
+	use crate::mockca::{CaPlan, MockCa};
+	use serde_json::json;
+	use std::time::Duration;
+	let acmed = match crate::build::acmed_inst() {
+		Ok(p) => p,
+		Err(e) => return Outcome::Infra(e),
+	};
+	let dir = scratch_dir("c08a");
+	let lay = Layout::new(&dir);
+	let coll = match HookCollector::start(&dir) {
+		Ok(c) => c,
+		Err(e) => return Outcome::Infra(e),
+	};
+	let ids = vec![("dns".to_string(), "acct.c08.test".to_string())];
+	let ca = match MockCa::start(CaPlan { polls_authz: 0, polls_ready: 0, polls_valid: 0, ..CaPlan::default() }, vec![(bb::ident_key(&ids), "c1".into())]) {
+		Ok(c) => c,
+		Err(e) => return Outcome::Infra(e),
+	};
+	let mk_cfg = |key: &str, contact: &str| {
+		json!({
+			"global": lay.global(),
+			"endpoint": [{"name": "e1", "url": ca.directory_url(), "tos_agreed": true}],
+			"account": [{"name": "a1", "key_type": key, "contacts": [{"mailto": contact}]}],
+			"hook": bb::std_hooks(&coll.sock),
+			"certificate": [{"name": "c1", "account": "a1", "endpoint": "e1", "key_type": "ecdsa-p256", "hooks": ["rec-http-01", "rec-http-01-clean", "rec-post"],
+				"env": {bb::CERT_ENV: "c1"}, "identifiers": [{"dns": "acct.c08.test", "challenge": "http-01"}]}],
+		})
+	};
+	let d = format!("{case:?}");
+	// first life: registration and a first certificate, nothing injected
+	{
+		let cfg_path = bb::write_config(&dir, "acmed.toml", &mk_cfg("ecdsa-p256", "one@c08.test"));
+		let mut daemon = match Daemon::spawn(&bb::daemon_opts(&acmed, &dir, &cfg_path, "run0")) {
+			Ok(d) => d,
+			Err(e) => return Outcome::Infra(e),
+		};
+		coll.hold_when(Box::new(|r, _| bb::is_post(r)));
+		let ok = coll.wait_until(&|r| r.iter().any(|x| bb::is_post(x)), Duration::from_secs(60), &mut || daemon.state() != ProcState::Alive);
+		let first_ok = coll.records().iter().find(|x| bb::is_post(x)).map(|p| p.arg("is_success") == Some("true")).unwrap_or(false);
+		let tail = daemon.stderr_tail(8);
+		daemon.kill();
+		coll.release_one();
+		if !ok || !first_ok {
+			bb::cleanup(&dir);
+			return Outcome::Infra(format!("the fault-free first life did not issue: {tail}"));
+		}
+	}
+	// second life: the configuration was edited, the certificate is due, the CA answers the account request with errors
+	let _ = std::fs::remove_file(lay.certs.join("c1_ecdsa-p256.crt.pem"));
+	let pos = if case.pos == "key-change" { Pos::KeyChange } else { Pos::AccountUpdate };
+	let (k, action, fpos) = (case.k, case.action.clone(), pos.clone());
+	ca.set_plan(&|p| p.faults.push(Fault { pos: fpos.clone(), nth: 1, repeat: k, action: action.clone(), cert: None }));
+	let mark = ca.snapshot().log.len();
+	let cfg2 = if case.pos == "key-change" { mk_cfg("ecdsa-p384", "one@c08.test") } else { mk_cfg("ecdsa-p256", "two@c08.test") };
+	let cfg_path = bb::write_config(&dir, "acmed.toml", &cfg2);
+	let mut daemon = match Daemon::spawn(&bb::daemon_opts(&acmed, &dir, &cfg_path, "run1")) {
+		Ok(d) => d,
+		Err(e) => return Outcome::Infra(e),
+	};
+	coll.hold_when(Box::new(|r, _| bb::is_post(r)));
+	let ok = coll.wait_until(&|r| r.iter().filter(|x| bb::is_post(x)).count() >= 2, Duration::from_secs(90), &mut || daemon.state() != ProcState::Alive);
+	let recs = coll.records();
+	let st = daemon.state();
+	let tail = daemon.stderr_tail(10);
+	daemon.kill();
+	coll.release();
+	let snap = ca.snapshot();
+	bb::cleanup(&dir);
+	if st != ProcState::Alive {
+		return Outcome::fail("C08:daemon-died", format!("{st:?}; {d}\n{tail}"));
+	}
+	if !ok {
+		return Outcome::fail("C08:no-attempt-result", format!("the attempt of the second life did not end; {d}\n{tail}"));
+	}
+	let post = recs.iter().filter(|x| bb::is_post(x)).nth(1).unwrap();
+	let success = post.arg("is_success") == Some("true");
+	let reqs: Vec<&crate::mockca::ReqLog> = snap.log.iter().skip(mark).filter(|l| l.t_ns < post.t_start).collect();
+	let txs: Vec<&&crate::mockca::ReqLog> = reqs.iter().filter(|l| l.pos == pos && (pos != Pos::AccountUpdate || !l.payload.is_empty())).collect();
+	let mut classes = vec![format!("pos={}", case.pos), format!("k={k}")];
+	if txs.is_empty() {
+		return Outcome::fail("C08:request-missing", format!("no {} request in the attempt that follows the edit; {d}\n{tail}", case.pos));
+	}
+	let recoverable = matches!(&case.action, Action::Acme(t) if RECOVERABLE.contains(&t.as_str()));
+	if recoverable {
+		classes.push("recoverable".into());
+		let want = (k + 1).min(MAX_TX);
+		if txs.len() != want {
+			return Outcome::fail("C08:retry-count", format!("{k} consecutive errors at {}: expected {want} transmissions, the CA saw {}; {d}", case.pos, txs.len()));
+		}
+		for w in txs.windows(2) {
+			let (p, n) = (w[0], w[1]);
+			if n.idx != p.idx + 1 {
+				return Outcome::fail("C08:retry-interleaved", format!("another request (#{}) between two transmissions; {d}", p.idx + 1));
+			}
+			if n.nonce.is_none() || n.nonce != p.resp_nonce {
+				return Outcome::fail("C08:retry-nonce", format!("retransmission #{} carries nonce {:?}, the preceding response gave {:?}; {d}", n.idx, n.nonce, p.resp_nonce));
+			}
+			// (the payload of a key-change is itself a JWS signed by the new key: ECDSA signatures differ from one transmission to the next)
+			if (case.pos != "key-change" && n.payload_sha != p.payload_sha) || n.kid != p.kid || n.path != p.path {
+				return Outcome::fail("C08:retry-content", format!("retransmission #{} differs from the first transmission; {d}", n.idx));
+			}
+			if !n.jws_ok {
+				return Outcome::fail("C08:retry-signature", format!("retransmission #{} is not validly signed; {d}", n.idx));
+			}
+		}
+		if k < MAX_TX && !success {
+			return Outcome::fail("C08:recoverable-not-recovered", format!("{k} recoverable errors then success, but the attempt failed: {:?}; {d}\n{tail}", post.arg("status")));
+		}
+		if k >= MAX_TX && success {
+			return Outcome::fail("C08:error-taken-for-success", format!("the {} request never succeeded, yet the attempt reports success; {d}", case.pos));
+		}
+	} else {
+		classes.push("non-recoverable".into());
+		if txs.len() != 1 {
+			return Outcome::fail("C08:nonrecoverable-resent", format!("error answer {} at {} must not be retried: {} transmissions; {d}", case.action.name(), case.pos, txs.len()));
+		}
+		if success {
+			return Outcome::fail("C08:error-taken-for-success", format!("error answer {} at {} yet the attempt reports success; {d}", case.action.name(), case.pos));
+		}
+		if reqs.last().map(|l| l.idx) != Some(txs[0].idx) {
+			let after: Vec<String> = reqs.iter().filter(|l| l.idx > txs[0].idx).map(|l| l.pos.name()).collect();
+			return Outcome::fail("C08:error-ignored", format!("error answer {} at {}: the attempt went on as if the request had succeeded ({:?}); {d}", case.action.name(), case.pos, after.iter().take(6).collect::<Vec<_>>()));
+		}
+	}
+	Outcome::pass(true, classes)
+}
+
 pub fn run(ctx: &Ctx, rep: &mut Report) {
-	rep.rule = "enumerated: every POST position of a 2-identifier issuance x each of the 24 ACME error types x run lengths of consecutive errors on that request (recoverable types: k in {1,2,9,10,12} everywhere and all k in 1..12 at newOrder, challenge and finalize in quick, all k everywhere in thorough; other types k in {1,3}); non-JSON bodies, problem without/with unknown type, empty 4xx/5xx at every POST position; objects that never reach the awaited status. An error answer that is not retried ends the attempt (no later request of that attempt). Also answers with status 300/301 (no Location), 304, 600 and 999, which are neither success nor 4xx/5xx. Oracle on the mock CA's log of the attempt: recoverable => min(k+1,10) consecutive transmissions, each carrying the nonce of the immediately preceding response, same URL/kid/jwk/payload, validly signed, success iff k <= 9; any other error => exactly one transmission and a failed attempt; at most 20 polls per object and failure afterwards. Non-trivial = k >= 2, or a non-recoverable error after newOrder, or a poll-bound case.".into();
+	rep.rule = "enumerated: every POST position of a 2-identifier issuance x each of the 24 ACME error types x run lengths of consecutive errors on that request (recoverable types: k in {1,2,9,10,12} everywhere and all k in 1..12 at newOrder, challenge and finalize in quick, all k everywhere in thorough; other types k in {1,3}); non-JSON bodies, problem without/with unknown type, empty 4xx/5xx at every POST position; objects that never reach the awaited status; section account: the contact update and the key roll-over of a second daemon life (after an edit of the configuration) answered with each recoverable type x k in {1,9,10,12} (thorough 1..12), other ACME types, non-problem bodies and odd status codes, judged the same way. An error answer that is not retried ends the attempt (no later request of that attempt). Also answers with status 304, 600 and 999, which are neither success nor 4xx/5xx nor followed by the HTTP library. Oracle on the mock CA's log of the attempt: recoverable => min(k+1,10) consecutive transmissions, each carrying the nonce of the immediately preceding response, same URL/kid/jwk/payload, validly signed, success iff k <= 9; any other error => exactly one transmission and a failed attempt; at most 20 polls per object and failure afterwards. Non-trivial = k >= 2, or a non-recoverable error after newOrder, or a poll-bound case.".into();
 	rep.assume("retry obligation is judged on POST requests; for directory/newNonce (GET) only 'an error is never taken for success'; accountDoesNotExist at newOrder may be followed by one re-registration and one re-send");
 	run_replays::<FaultCase>(ctx, rep, "enum", &exec);
+	run_replays::<AcctCase>(ctx, rep, "account", &exec_acct);
 	if ctx.replay.is_some() {
 		return;
 	}
 	let cs = cases(ctx.tier);
 	run_list(ctx, rep, "enum", &cs, default_par(), &exec);
+	run_list(ctx, rep, "account", &acct_cases(ctx.tier), default_par(), &exec_acct);
 	if let Some(s) = rep.sections.get_mut("enum") {
 		s.exhaustive = Some(ctx.tier == Tier::Thorough);
 	}
